@@ -341,7 +341,13 @@ func preemptions(ds []decision) int {
 
 func (sc *ConcScenario) once(prefix []int, rng *rand.Rand) ([]M, blockRun) {
 	w := NewWorld(sc.Config)
-	defer w.Shutdown()
+	abandoned := false
+	defer func() {
+		// a world in which the real handlers are deadlocked cannot be shut down (that needs the same locks)
+		if !abandoned {
+			w.Shutdown()
+		}
+	}()
 	n := 0
 	var recs []M
 	for _, st := range sc.Setup {
@@ -375,6 +381,7 @@ func (sc *ConcScenario) once(prefix []int, rng *rand.Rand) ([]M, blockRun) {
 	rec["rets"] = rets
 	rec["ret"] = "ok"
 	if br.deadlock || br.stuck != "" {
+		abandoned = true
 		rec["ret"] = "deadlock"
 		if !br.deadlock {
 			rec["ret"] = "harness"
